@@ -5,9 +5,11 @@ from checks.subs_common import take
 
 LEVEL = "model_checking"
 CRATE = "h_view"
-OUTS = ("fail", "site", "status", "cls", "value", "before", "after")
+OUTS = ("fail", "site", "status", "cls", "value", "before", "after", "rcls", "rvalue")
 KINDS = {"i32", "i32a", "str", "ustr", "bs", "ba"}
-RANGES = {"", "0", "1", "3", "4", "1:2", "0:9", "3:5", "2:1", "1,2", "a"}
+PAIRS = {(0, 0), (1, 1), (3, 3), (4, 4), (1, 2), (0, 9), (3, 5)}          # "0", "1", "3", "4", "1:2", "0:9", "3:5"
+ODD = {"", "2:1", "1,2", "a"}
+REL = {"last", "lastover", "past", "pastidx", "beyond", "whole", "wholeover", "overhang"}   # relative to the length of the value
 VTS = {"same", "wrong", "empty", "null", "conv", "scalar4arr", "arr4scalar", "bs4ba", "ba4bs"}
 
 
@@ -17,14 +19,19 @@ def strip(s):
 
 def run(ctx):
     q = ctx.quick
-    base = dict(DevByteIndexedStrings=False, MaxDepth=1, FocusKinds=KINDS | {"none"}, DAccs={"ro", "rw", "unw"},
-                DAttrs={"Value"}, DRanges=RANGES, DVTs=VTS, Calls={"Read", "Write"}, ORanges={"", "1", "a"}, OVTs={"same", "null"})
+    base = dict(DevByteIndexedStrings=False, DevPastEndAccepted=False, MaxDepth=1, FocusKinds=KINDS | {"none"}, DAccs={"ro", "rw", "unw"},
+                DAttrs={"Value"}, DPairs=PAIRS, DOdd=ODD, DRel=REL, DVTs=VTS, Calls={"Read", "Write"},
+                OPairs={(1, 1)}, OOdd={"", "a"}, OVTs={"same", "null"})
     seqs = dict(base, MaxDepth=2, FocusKinds=KINDS, DAccs={"rw"})
 
-    # 1. the design satisfies the monitor (sequences of 3 calls on the writable variables); byte indexed strings do not
+    # 1. the design satisfies the monitor (sequences of 3 / 4 calls on the writable variables); byte indexed strings do not, nor does
+    #    a range write that starts right behind the last element and is answered Good
     ctx.model_check("design", "MCAttribute", dict(seqs, MaxDepth=3 if q else 4), ["C32"], view="MView")
     ctx.model_check("dev_byte_indexed_strings", "MCAttribute", dict(base, DevByteIndexedStrings=True, FocusKinds={"ustr"}), ["C32"],
                     view="MView", expect_violation="C32")
+    if not q:
+        ctx.model_check("dev_range_past_end_accepted", "MCAttribute", dict(base, DevPastEndAccepted=True, FocusKinds={"i32a"}), ["C32"],
+                        view="MView", expect_violation="C32")
 
     cases = []
 
@@ -46,9 +53,12 @@ def run(ctx):
     n1 = gen("single", dict(base, DAttrs={"Value", "DisplayName", "AccessLevel", "Id0", "Id99"}))
     # 3. every sequence of two (thorough: on the writable variables every pair; quick: a sample) and
     #    every sequence of three calls over a reduced input space
-    n3 = gen("pairs", dict(seqs, DRanges={"", "1", "1:2", "0:9", "4", "a"}) if q else seqs, limit=2500 if q else None)
-    n4 = gen("triples", dict(seqs, MaxDepth=3, DRanges={"", "1:2"} if q else {"", "1", "1:2", "0:9"},
-                             DVTs={"same", "scalar4arr", "arr4scalar", "empty", "bs4ba"}), limit=1500 if q else 60000)
+    #    (index ranges relative to the current length of the value, which the first call of a sequence may have changed)
+    n3 = gen("pairs", dict(seqs, DPairs={(1, 2)}, DOdd={""}, DRel={"past", "pastidx", "lastover", "whole"},
+                          DVTs={"same", "arr4scalar", "scalar4arr", "bs4ba", "empty"}) if q else seqs,
+             limit=2500 if q else 40000)
+    n4 = gen("triples", dict(seqs, MaxDepth=3, DPairs=set(), DOdd={""}, DRel={"past"} if q else {"past", "lastover", "whole"},
+                             DVTs={"same", "scalar4arr", "arr4scalar", "empty", "bs4ba"}), limit=1500 if q else 40000)
     ctx.cov["exhaustive"] = not q
 
     if ctx.replay:
@@ -77,7 +87,7 @@ def run(ctx):
         if e is None or o["case"] in bad:
             continue
         nsteps += 1
-        for k in ("fail", "cls", "value", "before", "after"):
+        for k in ("range", "fail", "cls", "value", "before", "after", "rcls", "rvalue"):
             if k in e and canon(e[k]) != canon(o.get(k)):
                 bad.add(o["case"])
                 drift.append({"case": o["case"], "i": o["i"], "field": k, "call": strip(e), "expected": e[k], "observed": o.get(k),
@@ -96,9 +106,10 @@ def run(ctx):
     ctx.cov["traces_validated_against_impl"] += len(cases)
     ctx.cov["rule"] = ("behaviours of Attribute.tla generated by TLC and replayed through the real Read / Write services of a session on a real "
                        "server holding 18 variables (Int32, Int32[4], ASCII String, String with 2 and 3 byte characters, ByteString, Byte[4], each "
-                       "read-only / writable / writable but not for the user) and a missing node: every single call (5 attribute ids, 11 index range "
-                       "strings, up to 9 classes of written value), every pair and a reduced space of triples of calls on the writable variables. "
-                       "After every call the whole value is read back. distinct_nontrivial = distinct cases that write the Value of a writable variable")
+                       "read-only / writable / writable but not for the user) and a missing node: every single call (5 attribute ids, 11 fixed index "
+                       "range strings plus 8 ranges relative to the length n of the value: n-1, n-1:n, n:n+1, n, n+1:n+2, 0:n-1, 0:n, 0:n+5; up to 9 "
+                       "classes of written value), pairs and a reduced space of triples of calls on the writable variables. After every call the "
+                       "whole value is read back, after a Write with an index range also that range. distinct_nontrivial = distinct cases that write the Value of a writable variable")
     ctx.notes["steps_replayed"] = nsteps
     ctx.notes["outcomes"] = stats
     ctx.notes["generated"] = {"single": n1, "pairs": n3, "triples": n4}
@@ -110,7 +121,9 @@ def run(ctx):
         "Variant, a Write without value, ByteString for Byte[]) both outcomes pass; Good is a violation only without user write access or for a "
         "value of another type family (String for a number, a number for a String / ByteString)",
         "a Good index range write must leave the length and the elements outside the range unchanged; the elements inside must be the written "
-        "ones when the written array has exactly the length of a range that lies within the value",
+        "ones when the written array has exactly the length of a range that lies within the value; the Read of the same range right after it "
+        "must succeed and return the written elements (as many as both have, at least one)",
+        "the meaning [lo, hi] of an index range string is an input of the case; the harness builds the string it sends from it",
         "the variables have no write mask bit set: attributes other than Value are exercised for totality (status, no panic) only",
         "values are read back through the Read service of the same session (no encoding: the request is dispatched decoded)",
     ]
